@@ -329,7 +329,7 @@ impl<V> Item<V> {
 pub(crate) struct CacheProcessor<V, U, CB, S> {
     pub(crate) insert_buf_rx: Receiver<Item<V>>,
     pub(crate) stop_rx: Receiver<()>,
-    pub(crate) clear_rx: UnboundedReceiver<()>,
+    pub(crate) clear_rx: UnboundedReceiver<WaitSignal>,
     pub(crate) metrics: Arc<Metrics>,
     pub(crate) store: Arc<ShardedMap<V, U, S, S>>,
     pub(crate) policy: Arc<LFUPolicy<S>>,
@@ -389,7 +389,7 @@ pub struct Cache<
 
     pub(crate) stop_tx: Sender<()>,
 
-    pub(crate) clear_tx: UnboundedSender<()>,
+    pub(crate) clear_tx: UnboundedSender<WaitSignal>,
 
     pub(crate) callback: Arc<CB>,
 
@@ -459,14 +459,15 @@ where
             return Ok(());
         }
 
-        // stop the process item thread.
-        self.clear_tx.send(()).map_err(|e| {
+        // The processor wipes policy, store and metrics itself and then discards what is still
+        // buffered, so the wipe cannot interleave with an item it is applying; wait until it has
+        // done so (the signal also releases us if the processor has stopped meanwhile).
+        let wg = WaitGroup::new();
+        let (signal, _) = WaitSignal::new(wg.add(1));
+        self.clear_tx.send(signal).map_err(|e| {
             CacheError::SendError(format!("fail to send clear signal to working thread {}", e))
         })?;
-
-        self.policy.clear();
-        self.store.clear();
-        self.metrics.clear();
+        wg.wait();
 
         Ok(())
     }
@@ -653,7 +654,7 @@ where
         policy: Arc<LFUPolicy<S>>,
         insert_buf_rx: Receiver<Item<V>>,
         stop_rx: Receiver<()>,
-        clear_rx: UnboundedReceiver<()>,
+        clear_rx: UnboundedReceiver<WaitSignal>,
         metrics: Arc<Metrics>,
         callback: Arc<CB>,
     ) -> Self {
@@ -685,10 +686,12 @@ where
                         tracing::error!("fail to handle insert event: {}", e);
                     }
                 },
-                recv(self.clear_rx) -> _ => {
+                recv(self.clear_rx) -> signal => {
                     if let Err(e) = self.handle_clear_event() {
                         tracing::error!("fail to handle clear event: {}", e);
                     }
+                    // releases the caller of clear()
+                    drop(signal);
                 },
                 recv(ticker) -> msg => {
                     if let Err(e) = self.handle_cleanup_event(msg) {
@@ -702,6 +705,10 @@ where
 
     #[inline]
     pub(crate) fn handle_clear_event(&mut self) -> Result<(), CacheError> {
+        self.policy.clear();
+        self.store.clear();
+        self.metrics.clear();
+        // discard what is still buffered; pending wait() calls are released only now, after the wipe
         CacheCleaner::new(self).clean()
     }
 
